@@ -104,7 +104,8 @@ def cases(tier, rng):
     for k in ["{", "}", "C{", "{1}", "{key}", "{}", "{0}", "%", "%s", "%d", "C%", "%(key)s", "100%", "{{", "a}", "\\", "%%s"]:
         for f in STRFNS:
             yield Case(f, [k], "key/format-characters")
-    for i in list(range(-20, 21)) + [rng.randint(-2**63, 2**63) for _ in range(20)]:
+    for i in list(range(-20, 21)) + list(range(120, 136)) + list(range(240, 272)) + list(range(-272, -240)) + [65535, 65529, 2**31, -2**31] + \
+            [rng.randint(-2**63, 2**63) for _ in range(20)]:
         yield Case("keys.get_key", [i], "get_key/" + ("in" if -7 <= i <= 7 else "out"))
     alpha = "CcAaFf#bH"
     cands = set()
